@@ -416,6 +416,77 @@ func ifValueFamily(lv []*Expr) *core.Family {
 }
 
 // scope forms x simple conditions.
+// condition lists: every list of 1..3 when/unless clauses over bodies that are known
+// true / false / erroring, or that read a part which is unknown in some environments.
+// Partial evaluation decides each clause separately and must keep their conjunction:
+// a clause that becomes constant must not make the policy kept / dropped wrongly when a
+// later (or earlier) clause still depends on an unknown or fails.
+func condListFamily() *core.Family {
+	bodies := []*Expr{
+		L(Bool(true)), L(Bool(false)),
+		Bin(OEq, Access(Var("context"), "a"), L(Long(1))), Bin(OEq, Var("principal"), L(Entity("U", "alice"))), Bin(OIn, Var("principal"), L(Entity("G", "g2"))),
+		Access(Var("context"), "missing"), Has(Var("context"), "a"), Bin(OContains, Access(Var("context"), "s"), L(Long(1))),
+	}
+	nb := len(bodies) * 2
+	type clause struct {
+		when bool
+		body *Expr
+	}
+	var lists [][]clause
+	var rec func(cur []clause)
+	rec = func(cur []clause) {
+		if len(cur) > 0 {
+			lists = append(lists, append([]clause{}, cur...))
+		}
+		if len(cur) == 3 {
+			return
+		}
+		for k := 0; k < nb; k++ {
+			rec(append(cur, clause{k%2 == 0, bodies[k/2]}))
+		}
+	}
+	rec(nil)
+	return &core.Family{
+		Name: "condition-lists",
+		Desc: fmt.Sprintf("every list of 1..3 when/unless clauses over %d bodies (constants, comparisons / membership / has / contains over parts that are unknown in some environments, an erroring access) x {permit, forbid}: %d policies x %d partial environments x all completions", len(bodies), 2*len(lists), len(penvs)),
+		N:    int64(2 * len(lists)),
+		Run: func(t *core.T, i int64) {
+			cl := lists[i/2]
+			forb := i%2 == 1
+			mk := func() *xast.Policy {
+				p := xast.Permit()
+				if forb {
+					p = xast.Forbid()
+				}
+				for _, c := range cl {
+					if c.when {
+						p.When(c.body.ToAST())
+					} else {
+						p.Unless(c.body.ToAST())
+					}
+				}
+				return p
+			}
+			desc := func() string {
+				var sb strings.Builder
+				for _, c := range cl {
+					if c.when {
+						sb.WriteString("when { ")
+					} else {
+						sb.WriteString("unless { ")
+					}
+					sb.WriteString(c.body.String() + " } ")
+				}
+				return sb.String()
+			}
+			if checkPolicy(t, "condition-list", mk, forb, desc) {
+				t.Nontrivial()
+			}
+			t.SampleF(desc)
+		},
+	}
+}
+
 func scopeFamily() *core.Family {
 	type sc struct {
 		name string
@@ -486,7 +557,7 @@ func Check() *core.Check {
 		Assumptions: []string{"satisfaction is judged by x/exp/eval.Eval on PolicyToNode (its conformance is C01)", "forbid policies under ignored parts are not constrained by the property and are skipped"},
 		Families: func(tier string) []*core.Family {
 			lv := leaves()
-			fams := []*core.Family{scopeFamily(), condFamily("depth1-unary", gen.Unary, lv, 1), condFamily("depth1-binary", gen.Binary, lv, 2)}
+			fams := []*core.Family{scopeFamily(), condListFamily(), condFamily("depth1-unary", gen.Unary, lv, 1), condFamily("depth1-binary", gen.Binary, lv, 2)}
 			if tier == "thorough" {
 				fams = append(fams, condFamily("depth1-if", gen.Ternary, lv, 3), depth2Family(lv[:9]), ifValueFamily(lv))
 			} else {
